@@ -167,12 +167,24 @@ func newLibvuln(w *world, base context.Context) (*libvuln.Libvuln, []string, err
 			return nil
 		}
 	}
+	opts.Matchers = make([]driver.Matcher, 0, len(sc.oot)+80) // spare capacity is the caller's business
 	for _, i := range sc.oot {
 		opts.Matchers = append(opts.Matchers, w.matchers[i])
 	}
 	lv, err := libvuln.New(base, opts)
 	if err != nil {
 		return nil, nil, err
+	}
+	if sc.nw.twin {
+		// a second instance from the same Options value, every factory enabled,
+		// nothing configured; it is not used, the first one must be unaffected
+		o2 := *opts
+		o2.MatcherNames = nil
+		o2.MatcherConfigs = nil
+		st.mu.Lock()
+		st.configured = map[string]bool{}
+		st.mu.Unlock()
+		_, _ = libvuln.New(base, &o2)
 	}
 	var names []string
 	for _, m := range lv.MatchersForVerif() {
